@@ -17,7 +17,7 @@ DRIVER = "replay-calls"
 PID_NOTE = "results, persisted effects and closed flags"
 
 
-def gen(ctx, q):
+def gen(ctx, q, hostrec=True):
     files = {"mc.cfg": CFG % dict(starts="NoStarts", calls=3, tops="TopsAll", body=INV),
              "g2.cfg": CFG % dict(starts="NoStarts", calls=2, tops="TopsLight", body="INVARIANTS Emit"),
              "g3.cfg": CFG % dict(starts="NoStarts", calls=3, tops="TopsCore", body="INVARIANTS Emit"),
@@ -25,6 +25,7 @@ def gen(ctx, q):
              "deepreuse.cfg": CFG % dict(starts="NoStarts", calls=2, tops="DeepReuse", body="INVARIANTS Emit"),
              "starts.cfg": (CFG % dict(starts="StartsAll", calls=3, tops="StartTops", body="INVARIANTS Emit NoHalfInstance")),
              "heavy.cfg": CFG % dict(starts="NoStarts", calls=2, tops="Heavy", body="INVARIANTS Emit"),
+             "hostrec.cfg": CFG % dict(starts="NoStarts", calls=2, tops="HostRec", body="INVARIANTS Emit"),
              "sim.cfg": CFG % dict(starts="NoStarts", calls=6 if q else 8, tops="TopsAll" if not q else "TopsLight", body="INVARIANTS Emit")}
     ctx.tlc("CallsMC", "mc.cfg", extra_files=files, tag="design")
     beh = ctx.tlc("CallsMC", "g2.cfg", extra_files=files, design=False, tag="gen:pairs")["emitted"]
@@ -35,6 +36,10 @@ def gen(ctx, q):
     beh += ctx.tlc("CallsMC", "g3.cfg", extra_files=files, design=False, tag="gen:triples-core")["emitted"]
     heavy = ctx.tlc("CallsMC", "heavy.cfg", extra_files=files, design=False, tag="gen:deep-recursion")["emitted"]
     beh += heavy if not q else rnd.sample(heavy, min(8, len(heavy)))
+    # unbounded recursion THROUGH the host (guest -> host -> guest -> ...), then an ordinary call
+    hr = ctx.tlc("CallsMC", "hostrec.cfg", extra_files=files, design=False, tag="gen:recursion-through-the-host")["emitted"]
+    if hostrec:     # containment of recursion is C06's business; the listener check (C20) reuses the other histories only
+        beh += [b for b in hr if any(n["t"] == "cbrec" for c in b["hist"] for n in c["top"]["script"])]
     # stack overflow, then the SAME function object again (finite this time), then again
     reuse = ctx.tlc("CallsMC", "reuse.cfg", extra_files=files, design=False, tag="gen:overflow-then-reuse")["emitted"]
     reuse += ctx.tlc("CallsMC", "deepreuse.cfg", extra_files=files, design=False, tag="gen:deep-failure-then-deep-recursion")["emitted"]
@@ -59,7 +64,7 @@ def run(ctx, driver=DRIVER):
             for f in r.get("fails", []):
                 ctx.fail(f["key"], f["msg"], replay=rp)
         return
-    beh = gen(ctx, q)
+    beh = gen(ctx, q, hostrec=(driver == DRIVER))
     results = ctx.replay(driver, beh, timeout=3400)
     for b, r in zip(beh, results):
         for f in r.get("fails", []):
